@@ -554,24 +554,93 @@ pub proof fn lemma_char_step_is_advance(s0: State, c: char, r0: Seq<char>, s1: S
     }
 }
 
-/// HAVOCKED arm of into_tokens (string scanning with a by-value `for c in it` loop and re-lexing of interpolated
-/// expressions): its effect is ASSUMED to satisfy the same
-/// character-level contract (A-HAVOC-ARMS); the bounded span oracle exercises them on the real code.
+/// HAVOCKED in unit LEX, VERIFIED in unit LEXSTR (assume-guarantee split to keep each solver query small): the
+/// string-scanning arm of into_tokens satisfies the same character-level contract
 #[verifier::external_body]
 pub fn verif_havoc_string_arm(c: char, it: &mut Peekable<Chars>, state: &mut State) -> (r: LexResult)
-    requires wf(*old(state)),
+    requires wf(*old(state)), c == '"',
     ensures r is Ok ==> char_step(*old(state), c, rest(*old(it)), *final(state), rest(*final(it))), is_suffix(rest(*final(it)), rest(*old(it))),
         r matches Ok(v) ==> last_at_caret(v@, *final(state)),
 { unimplemented!() }
 
+/// outlines inside the string arm of into_tokens (A-STD / A-OUTLINE), text unchanged in /repo
+#[verifier::external_body]
+pub fn verif_outline_prefix(s: &String, n: usize) -> (r: String)
+    requires n <= s@.len(),
+    ensures r@ == s@.subrange(0, n as int),
+{ unimplemented!() /* outlined text: s[0..n].to_owned() */ }
+/// `s.starts_with("\"\"") && s.ends_with("\"\"")`: true only for a text that begins with a double quote
+#[verifier::external_body]
+pub fn verif_outline_doc_quotes(s: &String) -> (r: bool)
+    ensures r ==> s@.len() >= 1 && s@[0] == '"',
+{ unimplemented!() }
+#[verifier::external_body]
+pub fn verif_outline_trim_quotes<'a>(s: &'a String) -> (r: &'a str) { unimplemented!() }
+/// HAVOCKED: re-lexing of the interpolated expressions of a string (closure chain over tokenize_direct); the
+/// nested token lists do not influence the span or the caret (Str's width and line breaks come from its text)
+#[verifier::external_body]
+pub fn verif_havoc_interpolated(exprs: &Vec<(CaretPos, String)>) -> (r: LexResult<Vec<Vec<Lex>>>) { unimplemented!() }
+
+/// C18: reading `"` + text + `"` moves the caret exactly as the span of the string token says
+pub proof fn lemma_advance_text(p: (int, int), s: Seq<char>)
+    ensures advance(p, s) == (if str_breaks(s) == 0 { (p.0, p.1 + s.len()) } else { (p.0 + str_breaks(s), last_line_len(s) as int + 1) }),
+    decreases s.len(),
+{
+    if s.len() > 0 {
+        lemma_advance_text(p, s.drop_last());
+        if str_breaks(s.drop_last()) == 0 { lemma_last_line_len_no_break(s.drop_last()); }
+    }
+}
+pub proof fn lemma_breaks_push(s: Seq<char>, c: char)
+    ensures str_breaks(s.push(c)) == str_breaks(s) + (if c == '\n' { 1nat } else { 0nat }),
+            last_line_len(s.push(c)) == (if c == '\n' { 0nat } else { last_line_len(s) + 1 }),
+{
+    assert(s.push(c).drop_last() =~= s);
+}
+pub proof fn lemma_breaks_prepend(c: char, s: Seq<char>)
+    requires c != '\n',
+    ensures str_breaks(seq![c] + s) == str_breaks(s),
+            last_line_len(seq![c] + s) == (if str_breaks(s) == 0 { last_line_len(s) + 1 } else { last_line_len(s) }),
+    decreases s.len(),
+{
+    if s.len() == 0 {
+        assert(seq![c] + s =~= seq![c]);
+        assert(seq![c].drop_last() =~= Seq::<char>::empty());
+        assert(seq![c].last() == c);
+        assert(str_breaks(Seq::<char>::empty()) == 0);
+        assert(last_line_len(Seq::<char>::empty()) == 0);
+    } else {
+        assert((seq![c] + s).drop_last() =~= seq![c] + s.drop_last());
+        assert((seq![c] + s).last() == s.last());
+        lemma_breaks_prepend(c, s.drop_last());
+    }
+}
+pub proof fn lemma_breaks_bound(s: Seq<char>)
+    ensures str_breaks(s) <= s.len(), last_line_len(s) <= s.len(),
+    decreases s.len(),
+{
+    if s.len() > 0 { lemma_breaks_bound(s.drop_last()); }
+}
+pub proof fn lemma_string_token_advance(p: (int, int), s: Seq<char>)
+    ensures ({
+        let t = seq!['"'] + s.push('"');
+        advance(p, t) == (if str_breaks(s) == 0 { (p.0, p.1 + s.len() + 2) } else { (p.0 + str_breaks(s), last_line_len(s) as int + 2) })
+    }),
+{
+    let t = seq!['"'] + s.push('"');
+    lemma_advance_text(p, t);
+    lemma_breaks_push(s, '"');
+    lemma_breaks_prepend('"', s.push('"'));
+}
+
 //@@ FN src/parse/lex/tokenize.rs | free | create
     requires
-        wf(*old(state)), tok_breaks(token) == 0, token != Token::NL ==> true,
-        old(state).pos.line + 2 < 0x4000_0000, old(state).pos.pos + tok_width(token) + 4 < 0x4000_0000,
-        old(state).newlines@.len() < 0x4000_0000,
+        wf(*old(state)),
+        old(state).pos.line + tok_breaks(token) + 2 < 0x4000_0000, old(state).pos.pos + tok_width(token) + 4 < 0x4000_0000,
+        tok_last_line_width(token) + 4 < 0x4000_0000, old(state).newlines@.len() < 0x4000_0000,
     ensures
         r is Ok, wf(*final(state)), last_at_caret(r->Ok_0@, *final(state)),
-        token != Token::NL ==> caret_of(*final(state)) == (old(state).pos.line as int, old(state).pos.pos + tok_width(token)),   //# caret_moves_by_token_width [C18]
+        token != Token::NL ==> caret_of(*final(state)) == span_end(old(state).pos, token),   //# caret_moves_over_the_token [C18]
         token == Token::NL ==> caret_of(*final(state)) == (old(state).pos.line + 1, 1int),   //# newline_token_moves_to_next_line [C18,C14]
         final(state).newlines@.len() <= old(state).newlines@.len() + 1,
 //@@ END
@@ -589,6 +658,7 @@ pub fn verif_havoc_string_arm(c: char, it: &mut Peekable<Chars>, state: &mut Sta
         final(state).newlines@.len() <= old(state).newlines@.len() + 1,
 //@@ END
 
+//@@ IFNDEF STRARM
 #[verifier::loop_isolation(false)]
 //@@ FN src/parse/lex/tokenize.rs | free | into_tokens | props=C18,C03
 //@@ HINT after
@@ -625,6 +695,44 @@ pub fn verif_havoc_string_arm(c: char, it: &mut Peekable<Chars>, state: &mut Sta
         r is Ok ==> char_step(*old(state), c, rest(*old(it)), *final(state), rest(*final(it))),   //# caret_tracks_characters_read [C18,C14]
         r matches Ok(v) ==> last_at_caret(v@, *final(state)),                    //# last_span_ends_at_caret [C18]
 //@@ END
+//@@ ELSE
+#[verifier::loop_isolation(false)]
+//@@ FN src/parse/lex/tokenize.rs | free | into_tokens | props=C18,C03
+//@@ HAVOC
+//@@< match c { ',' => $$ '"' => { let mut
+//@@> match c { /* every arm before the string arm is dropped in this unit (verified in unit LEX) */ '"' => { let mut
+//@@ HINT after
+//@@< let mut $string = String::new(); let mut $bs = false; let mut exprs
+//@@> /* binds $string $bs */
+//@@ HINT after
+//@@< let mut $depth = 0; let mut $coff = CaretPos::start(); let mut $cexpr = String::new(); let mut $term = false;
+//@@> /* binds $depth $cexpr $term */
+//@@ REPLACE
+//@@< for $sc in it {
+//@@> while let Some($sc) = it.next() invariant !$term, $string@ =~= consumed(rest(*old(it)), rest(*it)), is_suffix(rest(*it), rest(*old(it))), -($string@.len() as int) <= $depth as int <= $string@.len(), $string@.len() <= rest(*old(it)).len(), ($string@.len() > 0 ==> $string@[0] != '"'), ($string@.len() == 0 ==> !$bs && $depth == 0), decreases rest(*it).len(), { /* `for c in it` over `&mut Peekable` spelled as the `while let Some(c) = it.next()` it desugars to */
+//@@ OUTLINE
+//@@< $cexpr[0..$$].to_owned()
+//@@> verif_outline_prefix(&$cexpr, $$1)
+//@@ OUTLINE
+//@@< $string.starts_with("\"\"") && $string.ends_with("\"\"")
+//@@> verif_outline_doc_quotes(&$string)
+//@@ OUTLINE
+//@@< $string.trim_start_matches("\"\"").trim_end_matches("\"\"")
+//@@> verif_outline_trim_quotes(&$string)
+//@@ HAVOC
+//@@< exprs .iter() .map($$) .collect::<Result<_, _>>()?
+//@@> verif_havoc_interpolated(&exprs)?
+//@@ HINT before
+//@@< create(state, Token::Str($string, $itoks))
+//@@> proof { lemma_string_token_advance(caret_of(*old(state)), $string@); lemma_breaks_bound($string@); assert(consumed(rest(*old(it)), rest(*it)) =~= $string@.push('"')); assert(seq![c] + consumed(rest(*old(it)), rest(*it)) =~= seq!['"'] + $string@.push('"')); }
+    requires wf(*old(state)), room(*old(state), rest(*old(it)).len()),            //# sizes_below_2_30 [C03]
+    ensures
+        is_suffix(rest(*final(it)), rest(*old(it))),                             //# only_reads_forward [C18]
+        // C18 at character level: after each call the caret is exactly where reading the consumed characters puts it
+        (c == '"' && r is Ok) ==> char_step(*old(state), c, rest(*old(it)), *final(state), rest(*final(it))),   //# caret_tracks_characters_read [C18,C14]
+        c == '"' ==> (r matches Ok(v) ==> last_at_caret(v@, *final(state))),                    //# last_span_ends_at_caret [C18]
+//@@ END
+//@@ ENDIF
 
 // ---- tokenize(): the whole-input theorem (C18 "line numbers never drift", "the stream ends with a single end-of-file token")
 /// outline of `input.chars().peekable()` (Iterator::peekable is a provided trait method): the iterator stands
@@ -701,6 +809,7 @@ pub proof fn lemma_tokenize_step(input: Seq<char>, r_before: Seq<char>, c: char,
     lemma_advance_bound((1int, 1int), consumed(input, r_after));
 }
 
+//@@ IFNDEF STRARM
 #[verifier::loop_isolation(false)]
 //@@ FN src/parse/lex/mod.rs | free | tokenize | props=C18,C03
 //@@ OUTLINE
@@ -738,6 +847,7 @@ pub proof fn lemma_tokenize_step(input: Seq<char>, r_before: Seq<char>, c: char,
 //@@> assert($tokens@.len() >= 1 && $tokens@.last().token == Token::Eof);  //# stream_ends_with_eof [C18]
     requires input@.len() + 64 < 0x4000_0000,                                    //# sizes_below_2_30 [C03]
 //@@ END
+//@@ ENDIF
 
 // ---- doc-string pass (C18 "... and doc-strings"): `""` `"doc"` `""` become one DocStr token ----------------------------
 /// the three quotes of a doc-string as the lexer emits them: consecutive spans, each ending where span_end says
